@@ -1,7 +1,7 @@
 (* C01 — linking returns a valid labelling and preserves the caller's rows. *)
-From Coq Require Import ZArith List Permutation.
+From Coq Require Import ZArith NArith List Permutation.
 From TP Require Import Model.Assign Model.Link Model.LinkTable Model.CoordsFromDf
-     Proofs.Cands Proofs.Labels Proofs.LinkTable Proofs.CoordsFromDf.
+     Model.LinkCheck Proofs.Cands Proofs.Labels Proofs.LinkTable Proofs.CoordsFromDf Proofs.Trajectory.
 Import ListNotations.
 Open Scope Z_scope.
 
@@ -52,6 +52,24 @@ Print Assumptions C01_missing_frames_are_steps.
 Theorem C01_coords_from_df : forall rows, coords_from_df rows = table_frames rows.
 Proof. exact coords_from_df_spec. Qed.
 Print Assumptions C01_coords_from_df.
+
+(* Trajectory level, on the implementation's own output: whenever the executable monitor
+   accepts the labels produced for a movie (this is what every run of the check evaluates
+   on trackpy's output, no predictor), then - for the whole movie, any length - every
+   frame carries one label per feature without repetition, and ANY two consecutive
+   observations of one label (no observation of it in between) are at most memory+1
+   frames apart and at most search_range apart (weighted metric: per-axis ranges define
+   an ellipsoid).  A label that is not continued from a live source must be brand new,
+   so a trajectory can never be resumed after more than memory missed frames. *)
+Theorem C01_monitor_sound_trajectories : forall m mem max_size frames out,
+  check_run m mem max_size no_pred frames (map Labels out) = 0%N ->
+  Forall2 (fun ds labs => length labs = length ds /\ NoDup labs) frames out /\
+  forall t1 t2 j1 j2 L p1 p2, (t1 < t2)%nat ->
+    occ frames out t1 j1 L p1 -> occ frames out t2 j2 L p2 ->
+    (forall u, (t1 < u < t2)%nat -> ~ occurs out u L) ->
+    (t2 - t1 <= mem + 1)%nat /\ d2w (mw m) p1 p2 <= mR2 m.
+Proof. exact check_run_trajectories. Qed.
+Print Assumptions C01_monitor_sound_trajectories.
 
 (* non-vacuity: the initial state of any first frame is ok *)
 Example C01_init_ok : forall mem ds, state_ok mem (fst (init_state ds)).
